@@ -97,10 +97,25 @@ def suite_extract(rng, tier, flavour):        # C18
 def suite_all(rng, tier, flavour):
     yield from _api(rng, tier, flavour, dict(W_ALL, damage_content=1), 200, 2000, length=(8, 30), big_every=100, hostile=0.3)
 
+def suite_meta(rng, tier, flavour):
+    yield from gen.meta_programs(rng, flavour, 150 if tier == "quick" else 1500)
+
+def suite_refwrites(rng, tier, flavour):
+    yield from gen.ref_written_programs(rng, flavour, 150 if tier == "quick" else 1500)
+
+def suite_crafted(rng, tier, flavour):
+    yield from gen.crafted_programs(rng, flavour, 150 if tier == "quick" else 1500)
+
 Q2 = {"quick": ["sync", "astd"], "thorough": ["sync", "astd", "tok"]}
 Q3 = {"quick": ["sync", "astd", "tok"], "thorough": ["sync", "astd", "tok"]}
 
 REGISTRY = {
+    "C11": {"flavours": Q3, "suites": [("meta", suite_meta), ("commit", suite_commit)],
+            "rule": "several writes to one key with fields (data, time incl. 2^128-1, JSON metadata trees, raw bytes, declared size, single/multi-hash integrity) drawn from small pools so that successive records differ in one field or repeat earlier values, via streamed writers and index::insert, read back by metadata/find/list after each; bucket bytes compared byte for byte (explicit times); default time checked against the call's wall-clock window."},
+    "C17": {"flavours": Q3, "suites": [("refwrites", suite_refwrites), ("meta", suite_meta), ("hist", suite_hist)],
+            "rule": "both directions: buckets written by the python reference writer in several valid JSON spellings (spaces, \\uXXXX escapes, shuffled / extra / omitted optional fields) read by the library; library-written caches read by the naive reference reader (refcheck after every index write); bucket bytes and paths compared with the model byte for byte."},
+    "C20": {"flavours": Q3, "suites": [("crafted", suite_crafted), ("all", suite_all), ("abandon", suite_abandon)], "no_panic": True,
+            "rule": "crafted checksum-valid records (odd integrity strings, non-object JSON, missing fields, 200-deep nesting), directories and dangling symlinks at bucket and content paths, declared-size chunkings, plus the general and abandonment programs; every call under catch_unwind and a watchdog: any panic or hang of the implementation is a violation whatever the model says."},
     "C02": {"flavours": Q3, "suites": [("roundtrip", suite_roundtrip), ("roundtrip_ok", suite_roundtrip_ok)],
             "rule": "random programs of writes through every entry point (one-shot, streamed with random chunkings incl. empty/single-byte/decreasing, keyed and by address, with/without declared size, five algorithms, small/hostile keys, sizes 0..16 KiB+1 and occasionally 1 MiB-1/0/+1 and 3 MiB) each followed by reads by key, by address, streamed reads and metadata."},
     "C08": {"flavours": Q3, "suites": [("commit", suite_commit)],
